@@ -19,7 +19,7 @@ theorem childFocus_umap {s v p m} {kw : Nat} {e : Shape} {es : List (List Nat ×
   · rw [hat] at hse
     simp only [Nat.zero_add] at hse
     cases hse
-    obtain ⟨Fc, hoff⟩ := F.elem hsm j es[j] (by simp [hj])
+    obtain ⟨Fc, hoff⟩ := F.elem hsm i es[i] (by simp [hj])
     exact ⟨_, Fc, hoff⟩
   · rw [hins] at hse; cases hse
 
